@@ -5,8 +5,10 @@ D: FrontDoor (the request pipeline as a machine: header gate, opcode gate, quest
    against the C11_* requirements of FrontDoorReq over all request attribute combinations x
    catalogs x chains x allow/deny lists (TLC, exhaustive; "later requests are served" as a
    liveness property under fairness).
-R: Gen_FrontDoor enumerates three case families (gate / acl / catalog) with what FrontDoorReq
-   prescribes; drive_front concretises each request to bytes and sends it through hook H4
+R: Gen_FrontDoor enumerates four case families (gate / acl / catalog / route: unusual query
+   names -- leading "*", "*" in the middle, upper case, a 63-octet label, the origin itself, one
+   label below it -- around every origin of nested, sibling, root and single-zone catalogs) with
+   what FrontDoorReq prescribes; drive_front concretises each request to bytes and sends it through hook H4
    (`verif_handle_raw_request`, the private pre-catalog gate) in front of the real Catalog with
    real in-memory zones behind instrumented handlers, UDP and TCP; a plain probe query follows
    every message.
@@ -49,8 +51,11 @@ def run(res, tier, seed):
         "QDCOUNT = 0: FORMERR or REFUSED accepted; QDCOUNT > 1: FORMERR (RFC 9619)",
         "what an UPDATE is answered with is C12's business: one reply, ID and zone section echoed",
         "T direction: whether a structurally well-formed record section parses takes a full RDATA reader (C01); for such "
-        "messages FORMERR is permitted but not demanded; messages with a compression pointer or multi-octet labels in the "
-        "question are judged on reply count, QR, ID, no panic and survival only",
+        "messages FORMERR is permitted but not demanded; messages with a compression pointer in the question, or with "
+        "labels other than single octets and 63-octet labels of one repeated octet, are judged on reply count, QR, ID, "
+        "no panic and survival only",
+        "query names compare case-insensitively (RFC 4343): the answering zone is decided on the folded name, the echoed "
+        "question must still equal the request's bytes (or parse to the same name, type and class)",
         "the answering zone / handler is read off the SOA in the (negative) answer; handlers are instrumented wrappers "
         "around real InMemoryZoneHandlers",
         "a QNAME that is a compression pointer into the header is echoed byte-identically (observation, not judged)",
@@ -102,7 +107,11 @@ def run(res, tier, seed):
                           "bytes": m["bytes"]})
         if v["ok"] and v["nontrivial"] and v["family"] == "gate":
             res.sample({"request": v["input"]["req"], "proto": v["input"]["proto"], "expected": v["expected"],
-                        "observed": {k: v["observed"][k] for k in ("replies", "rcode", "question", "zone", "handler")}}, cap=2)
+                        "observed": {k: v["observed"][k] for k in ("replies", "rcode", "question", "zone", "handler")}}, cap=1)
+        elif v["ok"] and v["family"] == "route" and v["input"].get("ucase") and v["observed"].get("handler") and n % 97 == 0:
+            res.sample({"catalog": [c["o"] for c in v["input"]["cfg"]["chains"]], "qname": v["input"]["req"]["qname"],
+                        "upper_case_on_wire": True, "expected_zone": v["expected"]["zone"],
+                        "observed": {k: v["observed"][k] for k in ("rcode", "zone", "handler", "question")}}, cap=3)
         elif v["ok"] and v["family"] == "catalog" and v["observed"].get("handler"):
             res.sample({"catalog": v["input"]["cfg"]["chains"], "qname": v["input"]["req"]["qname"],
                         "expected": v["expected"], "observed": {k: v["observed"][k] for k in ("rcode", "zone", "handler", "searched", "consulted")}}, cap=4)
